@@ -303,6 +303,14 @@ func (m *C18Monitor) AfterPass(r *Runner, pv *PassView) error {
 	for _, sw := range pv.StatusWrites {
 		conds = engine.Conditions(asMap(sw.Body))
 	}
+	if exp.Retry && (exp.Class == "template-error" || exp.Class == "target-outside-namespace") {
+		// the template cannot be rendered (yet) while an optional source is missing: the source may appear later without any
+		// event reaching the controller (it is not labelled for the cache before it is used), so the retry must still be scheduled
+		r.Labels["c18-optional-source-missing-and-unrenderable"] = true
+		if pv.P.Err == "" && pv.P.Result.RequeueAfter <= 0 {
+			return Violf("C18", "optional-source-not-retried", "pass %d: an optional source of %s is missing and the template is %s, but no retry was scheduled", pv.P.ID, name, exp.Class)
+		}
+	}
 	if exp.Class != "" {
 		r.Labels["c18-invalid-class"] = true
 		for _, c := range targetWrites {
